@@ -42,6 +42,15 @@ fn new_tera() -> Tera {
         PROBE.with(|p| p.borrow_mut().push(v.clone()));
         ""
     });
+    // custom builtins that go back to the `State` they are given: another filter by name, a variable
+    tera.register_filter("viaupper", |v: Value, _: Kwargs, st: &State| st.call_filter("upper", &v, Kwargs::default()));
+    tera.register_filter("viadefault", |v: Value, _: Kwargs, st: &State| st.call_filter("str", &v, Kwargs::default()));
+    tera.register_function("peek_a", |_: Kwargs, st: &State| match st.get::<Value>("a") {
+        Ok(Some(v)) => format!("{}", v.name()),
+        Ok(None) => "undefined".to_string(),
+        Err(_) => "error".to_string(),
+    });
+    tera.register_test("has_a", |_: Value, _: Kwargs, st: &State| matches!(st.get::<Value>("a"), Ok(Some(_))));
     tera
 }
 
@@ -1003,6 +1012,61 @@ fn history_stream(report: &mut Report) -> Option<(String, serde_json::Value)> {
     first
 }
 
+// ------------------------------------------------------------------ stream B: break / continue and captures
+
+/// `break` / `continue` may not leave a capture (component-call body, filter section, set block) that was
+/// opened inside the loop: such a template is rejected at add time, however the loop itself is nested
+/// (inside another capture, a block, a component definition); a jump that stays inside its capture is fine.
+fn break_stream(report: &mut Report) -> Option<(String, serde_json::Value)> {
+    let open_close: [(&str, &str, &str); 4] = [
+        ("call body", "{% <w> %}", "{% </w> %}"),
+        ("filter section", "{% filter upper %}", "{% endfilter %}"),
+        ("set block", "{% set s %}", "{% endset %}"),
+        ("nothing", "", ""),
+    ];
+    let defs = "{% component w() %}[{{ body }}]{% endcomponent w %}";
+    let mut first = None;
+    for (oname, oo, oc) in open_close {
+        for (mname, mo, mc) in open_close {
+            for (iname, io, ic) in open_close {
+                for kw in ["break", "continue"] {
+                    for place in ["top", "block", "component definition"] {
+                        // outer capture > [middle capture >] for > inner capture > break
+                        let body = format!("{oo}{mo}{{% for i in [1, 2, 3] %}}a{io}b{{% {kw} %}}c{ic}d{{% endfor %}}{mc}{oc}");
+                        let src = match place {
+                            "block" => format!("{{% block b %}}{body}{{% endblock b %}}"),
+                            "component definition" => format!("{{% component host() %}}{body}{{% endcomponent host %}}{{{{ <host/> }}}}"),
+                            _ => body.clone(),
+                        };
+                        let must_reject = iname != "nothing";
+                        let mut tera = new_tera();
+                        let r = catch(std::panic::AssertUnwindSafe(|| tera.add_raw_templates(vec![("defs.txt", defs), ("t.txt", src.as_str())])));
+                        report.evaluations += 1;
+                        report.oracle_checks += 1;
+                        let verdict = match &r {
+                            Err(p) => format!("panic {p}"),
+                            Ok(Err(_)) => "rejected".to_string(),
+                            Ok(Ok(())) => format!("accepted, renders {:?}", render_with(&tera, "t.txt", &Context::new())),
+                        };
+                        let ok = if must_reject { verdict == "rejected" } else { verdict.starts_with("accepted, renders \"ok ") };
+                        report.count(if must_reject { "break.must-reject" } else { "break.must-accept" });
+                        if !ok {
+                            report.oracle_failures += 1;
+                            if first.is_none() {
+                                first = Some((
+                                    format!("`{kw}` inside a {iname} opened inside the loop (loop inside: {mname} inside {oname}, at {place}): `{src}` is {verdict}; {}", if must_reject { "the jump would leave the capture open: it must be rejected at add time" } else { "the jump stays inside its capture: it must be accepted and render" }),
+                                    serde_json::json!({"stream": "break", "template": src}),
+                                ));
+                            }
+                        }
+                    }
+                }
+            }
+        }
+    }
+    first
+}
+
 // ------------------------------------------------------------------ recursion (child process)
 
 #[derive(Clone, Debug)]
@@ -1227,7 +1291,7 @@ fn api_equiv(rng: &mut Rng, n: usize, report: &mut Report) -> Option<(String, se
         // the defining template's own suffix must not matter: the caller's mode / the API flag decides,
         // also for a nested component and (through the carried override) for an include
         let def_sfx = if rng.chance(1, 2) { ".html" } else { ".txt" };
-        let comp_body = format!("{{% for k, v in __tera_context %}}{{{{ k }}}}={{{{ v }}}};{{% endfor %}}|{{% if body is defined %}}B[{{{{ body }}}}]{{% else %}}NB{{% endif %}}|{{{{ a | default(value=\"-\") }}}}|{{{{ <nested v={{a | default(value=\"<n>\")}}/> }}}}|{{% include \"apiinc{sfx}\" %}}");
+        let comp_body = format!("{{% for k, v in __tera_context %}}{{{{ k }}}}={{{{ v }}}};{{% endfor %}}|{{% if body is defined %}}B[{{{{ body }}}}]{{% else %}}NB{{% endif %}}|{{{{ \"via\" | viaupper }}}}{{{{ 7 | viadefault }}}}|{{{{ peek_a() }}}}{{% if 1 is has_a %}}T{{% else %}}F{{% endif %}}|{{{{ a | default(value=\"-\") }}}}|{{{{ <nested v={{a | default(value=\"<n>\")}}/> }}}}|{{% include \"apiinc{sfx}\" %}}");
         let comp_body = comp_body.as_str();
         let mut tera = new_tera();
         let call = if with_body { format!("{{% <comp {{...kw}}> %}}{body_text}{{% </comp> %}}") } else { "{{ <comp {...kw}/> }}".to_string() };
@@ -1317,6 +1381,7 @@ fn main() {
                 match other {
                     "isolation" => println!("{:?}", isolation(&mut rng, 2000).1),
                     "escaping" => println!("{:?}", escaping(&mut report)),
+                    "break" => println!("{:?}", break_stream(&mut report)),
                     "history" => println!("{:?}", history_stream(&mut report)),
                     "nested" => println!("{:?}", nested_capture_stream(&mut report, 3)),
                     "boundary" => println!("{:?}", boundary_stream(&mut report)),
@@ -1507,6 +1572,11 @@ fn main() {
     // ---- stream E
     if let Some((msg, r)) = escaping(&mut report) {
         report.oracle_failures += 1;
+        report.violation("property", msg, r);
+    }
+
+    // ---- stream B: break / continue must not leave a capture opened inside the loop
+    if let Some((msg, r)) = break_stream(&mut report) {
         report.violation("property", msg, r);
     }
 
